@@ -4,7 +4,7 @@ import PhyModel.Proofs.LikProofs
 from-scratch recursion of `Model/Tree.lean` (`nodeP`, `nodeR`, `rootR`) on the forest with the same
 shape and assignment, and both joint densities read from the cache equal `Density.pOne` /
 `Density.pMarg` of that forest. -/
-namespace PhyModel.Store
+namespace PhyModel.Store.C06
 open PhyModel
 
 theorem getD_map_range {α} (S : Nat) (f : Nat → α) (d : α) (s : Nat) (hs : s < S) :
@@ -16,7 +16,7 @@ theorem recompR_getD (dt : Data) (n : NodeRec) (k : SF) (s : Nat) (hs : s < dt.S
   unfold recompR; rw [getD_map_range _ _ _ _ hs]
 
 /-- every (clone, children) pair of a forest -/
-def SF.nodesK : SF → List (NodeRec × SF)
+def _root_.PhyModel.Store.SF.nodesK : SF → List (NodeRec × SF)
   | .nil => []
   | .cons n k s => (n, k) :: (nodesK k ++ nodesK s)
 
@@ -106,4 +106,4 @@ theorem pMargC_eq (dt : Data) (α : Rat) (s : Store) (h : CacheOK dt s) :
     Store.pMargC dt α s = Density.pMarg dt α s.forest.toDF s.outliers := by
   unfold Store.pMargC Density.pMarg; rw [dataMargC_eq dt s h]
 
-end PhyModel.Store
+end PhyModel.Store.C06
